@@ -2769,3 +2769,616 @@ Proof.
   intros ty asn buf. unfold path_prepend_b. destruct buf as [|b0 rest]; [eauto|].
   destruct (b0 =? ty); [|eauto]. destruct rest as [|b1 rest']; [eauto|]. destruct (b1 <? 255); eauto.
 Qed.
+
+(* ================================================================ Add-Path sessions: the export map covers the neighbour's view *)
+Lemma alookup_aremove_same : forall k m, alookup k (aremove k m) = None.
+Proof.
+  intros k. induction m as [|[k' v] m IH]; [reflexivity|]. cbn [aremove].
+  destruct (k =? k') eqn:E; [exact IH|]. cbn [alookup]. rewrite E. exact IH.
+Qed.
+
+Lemma alookup_aremove_other : forall k k' m, k <> k' -> alookup k (aremove k' m) = alookup k m.
+Proof.
+  intros k k' m H. induction m as [|[k2 v] m IH]; [reflexivity|]. cbn [aremove].
+  destruct (k' =? k2) eqn:E.
+  - apply N.eqb_eq in E. subst k2. cbn [alookup]. assert (F : k =? k' = false) by (apply N.eqb_neq; exact H). rewrite F. exact IH.
+  - cbn [alookup]. rewrite IH. reflexivity.
+Qed.
+
+Lemma alookup_app_none : forall k m1 m2, alookup k m1 = None -> alookup k (m1 ++ m2) = alookup k m2.
+Proof.
+  intros k. induction m1 as [|[k' v] m1 IH]; intros m2 H; [reflexivity|].
+  cbn [alookup app] in *. destruct (k =? k'); [discriminate | apply IH; exact H].
+Qed.
+
+Lemma alookup_app_some : forall k m1 m2 v, alookup k m1 = Some v -> alookup k (m1 ++ m2) = Some v.
+Proof.
+  intros k. induction m1 as [|[k' v'] m1 IH]; intros m2 v H; [discriminate|].
+  cbn [alookup app] in *. destruct (k =? k'); [exact H | apply IH; exact H].
+Qed.
+
+Lemma alookup_aset_same : forall k v m, alookup k (aset k v m) = Some v.
+Proof.
+  intros k v m. unfold aset. rewrite alookup_app_none by apply alookup_aremove_same.
+  cbn [alookup]. rewrite N.eqb_refl. reflexivity.
+Qed.
+
+Lemma alookup_aset_other : forall k k' v m, k <> k' -> alookup k (aset k' v m) = alookup k m.
+Proof.
+  intros k k' v m H. unfold aset.
+  destruct (alookup k m) as [w|] eqn:E.
+  - apply alookup_app_some. rewrite alookup_aremove_other by exact H. exact E.
+  - rewrite alookup_app_none by (rewrite alookup_aremove_other by exact H; exact E).
+    cbn [alookup]. assert (F : k =? k' = false) by (apply N.eqb_neq; exact H). rewrite F. reflexivity.
+Qed.
+
+Lemma ap_mark_sent : forall m d pid, exists m',
+  em_mark_sent (EAddPath m) d pid = EAddPath m'
+  /\ forall d', ap_ids m' d' = if d' =? d then add_n pid (ap_ids m d) else ap_ids m d'.
+Proof.
+  intros m d pid. eexists. split; [reflexivity|]. intro d'. unfold ap_ids.
+  destruct (d' =? d) eqn:E.
+  - apply N.eqb_eq in E. subst d'. rewrite alookup_aset_same. reflexivity.
+  - apply N.eqb_neq in E. rewrite alookup_aset_other by exact E. reflexivity.
+Qed.
+
+Lemma ap_mark_withdrawn : forall m d pid, exists m',
+  em_mark_withdrawn (EAddPath m) d pid = EAddPath m'
+  /\ forall d', ap_ids m' d' = if d' =? d then remove_n pid (ap_ids m d) else ap_ids m d'.
+Proof.
+  intros m d pid. cbn [em_mark_withdrawn]. destruct (alookup d m) as [ids|] eqn:E.
+  - destruct (remove_n pid ids) as [|i r] eqn:Er.
+    + eexists. split; [reflexivity|]. intro d'. unfold ap_ids. destruct (d' =? d) eqn:Ed.
+      * apply N.eqb_eq in Ed. subst d'. rewrite alookup_aremove_same, E, Er. reflexivity.
+      * apply N.eqb_neq in Ed. rewrite alookup_aremove_other by exact Ed. reflexivity.
+    + eexists. split; [reflexivity|]. intro d'. unfold ap_ids. destruct (d' =? d) eqn:Ed.
+      * apply N.eqb_eq in Ed. subst d'. rewrite alookup_aset_same, E, Er. reflexivity.
+      * apply N.eqb_neq in Ed. rewrite alookup_aset_other by exact Ed. reflexivity.
+  - exists m. split; [reflexivity|]. intro d'. unfold ap_ids. destruct (d' =? d) eqn:Ed; [|reflexivity].
+    apply N.eqb_eq in Ed. subst d'. rewrite E. reflexivity.
+Qed.
+
+Lemma In_add_n : forall x y l, In x (add_n y l) <-> x = y \/ In x l.
+Proof.
+  intros x y l. rewrite <- !mem_In, mem_add_n, orb_true_iff, N.eqb_eq. tauto.
+Qed.
+
+Lemma In_remove_n : forall x y l, In x (remove_n y l) <-> x <> y /\ In x l.
+Proof.
+  intros x y l. rewrite <- !mem_In, mem_remove_n, andb_true_iff, negb_true_iff, N.eqb_neq. tauto.
+Qed.
+
+(* withdrawing the ids of [gone] *)
+Lemma ap_fold_withdrawn : forall gone m d, exists m',
+  fold_left (fun e pid => em_mark_withdrawn e d pid) gone (EAddPath m) = EAddPath m'
+  /\ (forall p, In p (ap_ids m' d) <-> In p (ap_ids m d) /\ ~ In p gone)
+  /\ (forall d', d' <> d -> ap_ids m' d' = ap_ids m d').
+Proof.
+  induction gone as [|g gone IH]; intros m d.
+  - exists m. cbn. split; [reflexivity|]. split; [tauto | auto].
+  - cbn [fold_left]. destruct (ap_mark_withdrawn m d g) as (m1 & E1 & H1). rewrite E1.
+    destruct (IH m1 d) as (m' & E' & H' & Ho). exists m'. split; [exact E'|]. split.
+    + intro p. rewrite H'. rewrite (H1 d), N.eqb_refl, In_remove_n. cbn [In]. intuition.
+    + intros d' Hd. rewrite (Ho d' Hd), (H1 d'). apply N.eqb_neq in Hd. rewrite Hd. reflexivity.
+Qed.
+
+(* addpath_reaches only adds, and records every id it advertises *)
+Lemma ap_reaches : forall x d rep top m r,
+  addpath_reaches x d rep (EAddPath m) top = Ok r ->
+  exists m', snd r = EAddPath m'
+    /\ (forall p, In p (ap_ids m d) -> In p (ap_ids m' d))
+    /\ (forall d' pid nh out s, In (Reach d' pid nh out s) (fst r) -> d' = d /\ In pid (ap_ids m' d))
+    /\ (forall op, In op (fst r) -> exists pid nh out s, op = Reach d pid nh out s)
+    /\ (forall d', d' <> d -> ap_ids m' d' = ap_ids m d').
+Proof.
+  intros x d rep. induction top as [|[[[pid0 a0] nh0] s0] t IH]; intros m r H.
+  - cbn in H. inversion H; subst. exists m. cbn. repeat split; auto; intros; contradiction.
+  - cbn [addpath_reaches] in H.
+    destruct (negb (em_contains_path (EAddPath m) d pid0) || match rep with Some r0 => r0 =? pid0 | None => false end).
+    + destruct (export_attrs x a0) as [a'|]; cbn [rbind] in H; [|discriminate].
+      destruct (ap_mark_sent m d pid0) as (m1 & E1 & H1). rewrite E1 in H.
+      destruct (addpath_reaches x d rep (EAddPath m1) t) as [r'|] eqn:Er; cbn [rbind] in H; [|discriminate].
+      inversion H; subst r. cbn [fst snd].
+      destruct (IH m1 r' Er) as (m' & Es & Hk & Hr & Hop & Ho). exists m'. split; [exact Es|].
+      assert (Hm1 : forall p, In p (ap_ids m1 d) <-> p = pid0 \/ In p (ap_ids m d))
+        by (intro p; rewrite (H1 d), N.eqb_refl; apply In_add_n).
+      split; [|split; [|split]].
+      * intros p Hp. apply Hk. apply Hm1. right. exact Hp.
+      * intros d' pid nh out s [Hin|Hin].
+        -- inversion Hin; subst. split; [reflexivity|]. apply Hk. apply Hm1. left. reflexivity.
+        -- exact (Hr _ _ _ _ _ Hin).
+      * intros op [Hin|Hin]; [subst op; eauto | exact (Hop op Hin)].
+      * intros d' Hd. rewrite (Ho d' Hd), (H1 d'). apply N.eqb_neq in Hd. rewrite Hd. reflexivity.
+    + exact (IH m r H).
+Qed.
+
+Lemma view_after_untouched : forall ops d pid v,
+  (forall op, In op ops -> touches d pid op = false) -> view_after ops d pid v = v.
+Proof.
+  induction ops as [|op ops IH]; intros d pid v H; [reflexivity|].
+  pose proof (H op (or_introl eq_refl)) as Ht. destruct op; cbn [view_after touches] in *; rewrite Ht; apply IH;
+    intros o Ho; apply H; right; exact Ho.
+Qed.
+
+(* One call on an Add-Path session: every entry the neighbour holds afterwards is recorded
+   in the ExportMap (so a later change that names the path as replaced, or drops it from the
+   list, reaches it), provided that was so before. *)
+Theorem C09_export_map_covers_view_addpath : forall x pol emax raddr cid c m r,
+  emax <> 1 ->
+  process_change x pol emax raddr cid c (EAddPath m) = Ok r ->
+  exists m', snd r = EAddPath m'
+    /\ forall d pid v0,
+         (has_entry v0 = true -> In pid (ap_ids m d)) ->
+         has_entry (view_after (fst r) d pid v0) = true -> In pid (ap_ids m' d).
+Proof.
+  intros x pol emax raddr cid c m r Hem H. unfold process_change in H.
+  apply N.eqb_neq in Hem. rewrite Hem in H.
+  destruct (negb (c_any_changed c)).
+  { inversion H; subst. exists m. split; [reflexivity|]. intros d pid v0 Hv Hh. cbn [fst view_after] in Hh. auto. }
+  match type of H with rbind (addpath_reaches _ _ _ (fold_left _ ?gone _) ?top) _ = _ =>
+    set (GONE := gone) in *; set (TOP := top) in * end.
+  destruct (ap_fold_withdrawn GONE m (c_dest c)) as (m1 & E1 & Hg & Hgo). rewrite E1 in H.
+  destruct (addpath_reaches x (c_dest c) (c_replaced c) (EAddPath m1) TOP) as [r'|] eqn:Er; cbn [rbind] in H; [|discriminate].
+  inversion H; subst r. clear H. cbn [fst snd].
+  destruct (ap_reaches _ _ _ _ _ _ Er) as (m' & Es & Hk & Hr & Hop & Ho).
+  exists m'. split; [exact Es|]. intros d pid v0 Hv Hh.
+  rewrite view_after_app in Hh.
+  destruct (N.eq_dec d (c_dest c)) as [Hd|Hd].
+  - subst d.
+    destruct (view_after (fst r') (c_dest c) pid (view_after (map (fun p => Unreach (c_dest c) p) GONE) (c_dest c) pid v0)) as [v|] eqn:Ev;
+      [|discriminate].
+    destruct (view_after_cases _ _ _ _ _ Ev) as [(nh & s & Hin) | (Hv1 & _)].
+    + exact (proj2 (Hr _ _ _ _ _ Hin)).
+    + (* untouched by the advertisements: it survived the withdrawals *)
+      apply Hk. apply Hg.
+      destruct (in_dec N.eq_dec pid GONE) as [Hi|Hn].
+      * exfalso. clear - Hv1 Hi. revert Hv1. generalize v0. induction GONE as [|g G IH]; [contradiction|].
+        intros w Hw. cbn [map view_after] in Hw. destruct Hi as [Hi|Hi].
+        -- subst g. rewrite !N.eqb_refl in Hw. cbn [andb] in Hw.
+           assert (Hnone : forall G0, view_after (map (fun p => Unreach (c_dest c) p) G0) (c_dest c) pid None = None).
+           { induction G0 as [|g0 G0 IH0]; [reflexivity|]. cbn [map view_after]. destruct ((c_dest c =? c_dest c) && (g0 =? pid)); exact IH0. }
+           rewrite Hnone in Hw. discriminate.
+        -- exact (IH Hi _ Hw).
+      * split; [|exact Hn]. apply Hv.
+        rewrite view_after_untouched in Hv1.
+        -- rewrite Hv1. reflexivity.
+        -- intros op Hop'. apply in_map_iff in Hop'. destruct Hop' as (g & Hg' & Hgin). subst op. cbn [touches].
+           destruct (g =? pid) eqn:Eg; [apply N.eqb_eq in Eg; subst g; contradiction | apply andb_false_r].
+  - (* another destination: nothing concerns it *)
+    assert (Hu : forall ops, (forall op, In op ops -> exists p, op = Unreach (c_dest c) p \/ exists nh out s, op = Reach (c_dest c) p nh out s) ->
+              view_after ops d pid v0 = v0).
+    { intros ops Hops. apply view_after_untouched. intros op Hin. destruct (Hops op Hin) as (p & [E|(nh & out & s & E)]); subst op; cbn [touches];
+        assert (F : c_dest c =? d = false) by (apply N.eqb_neq; congruence); rewrite F; reflexivity. }
+    rewrite (Hu (map (fun p => Unreach (c_dest c) p) GONE)) in Hh.
+    2:{ intros op Hin. apply in_map_iff in Hin. destruct Hin as (g & Hg' & _). exists g. left. auto. }
+    rewrite view_after_untouched in Hh.
+    2:{ intros op Hin. destruct (Hop op Hin) as (p & nh & out & s & E). subst op. cbn [touches].
+        assert (F : c_dest c =? d = false) by (apply N.eqb_neq; congruence). rewrite F. reflexivity. }
+    rewrite (Ho d Hd), (Hgo d Hd). exact (Hv Hh).
+Qed.
+
+(* ... hence along any history of an Add-Path session *)
+Theorem C09_export_map_covers_view_addpath_history : forall x pol emax raddr cid cs m r,
+  emax <> 1 ->
+  run_changes x pol emax raddr cid cs (EAddPath m) = Ok r ->
+  exists m', snd r = EAddPath m'
+    /\ forall d pid v0,
+         (has_entry v0 = true -> In pid (ap_ids m d)) ->
+         has_entry (view_after (fst r) d pid v0) = true -> In pid (ap_ids m' d).
+Proof.
+  intros x pol emax raddr cid cs. induction cs as [|c t IH]; intros m r Hem H.
+  - cbn in H. inversion H; subst. exists m. split; [reflexivity|]. intros d pid v0 Hv Hh. cbn in Hh. auto.
+  - cbn [run_changes] in H.
+    destruct (process_change x pol emax raddr cid c (EAddPath m)) as [r1|] eqn:E1; [|discriminate]. cbn [rbind] in H.
+    destruct (C09_export_map_covers_view_addpath _ _ _ _ _ _ _ _ Hem E1) as (m1 & Es1 & H1). rewrite Es1 in H.
+    destruct (run_changes x pol emax raddr cid t (EAddPath m1)) as [r2|] eqn:E2; [|discriminate]. cbn [rbind] in H.
+    inversion H; subst r. cbn [fst snd].
+    destruct (IH m1 r2 Hem E2) as (m' & Es & H2). exists m'. split; [exact Es|].
+    intros d pid v0 Hv Hh. rewrite view_after_app in Hh. apply (H2 d pid _ (H1 d pid v0 Hv) Hh).
+Qed.
+
+(* ---------------------------------------------------------------- restale_llgr's stream, Add-Path sessions, any destination *)
+(* a change whose paths with id [pid] are LLGR-stale keeps "nothing, or a copy with LLGR_STALE" *)
+Lemma stale_or_none_step : forall x pol emax raddr cid c e r pid v0,
+  policy_keeps_decodable pol ->
+  (forall p, In p (c_paths c) -> decodable (p_attrs p)) ->
+  emax <> 1 ->
+  (forall p, In p (c_paths c) -> p_lpid p = pid -> src_llgr (p_src p) = true) ->
+  process_change x pol emax raddr cid c e = Ok r ->
+  stale_or_none v0 -> stale_or_none (view_after (fst r) (c_dest c) pid v0).
+Proof.
+  intros x pol emax raddr cid c e r pid v0 Hk Hd Hem Hst H Hq.
+  destruct (view_after (fst r) (c_dest c) pid v0) as [v|] eqn:Ev; [|exact I]. cbn [stale_or_none].
+  destruct (view_after_cases _ _ _ _ _ Ev) as [(nh & s & Hin) | (Hv0 & _)].
+  - destruct (reach_origin_pid _ _ _ _ _ _ _ _ _ _ _ _ _ H Hin) as (p & Hp & Hs & Hpid).
+    apply N.eqb_neq in Hem. rewrite Hem in Hpid.
+    eapply C09_llgr_stale_marked; [exact Hk | exact Hd | exact H | exact Hin |]. subst s. exact (Hst p Hp Hpid).
+  - subst v0. exact Hq.
+Qed.
+
+Lemma stale_or_none_run : forall x pol emax raddr cid d pid cs e r v0,
+  policy_keeps_decodable pol -> emax <> 1 ->
+  (forall c, In c cs -> c_dest c = d
+     /\ (forall p, In p (c_paths c) -> decodable (p_attrs p))
+     /\ (forall p, In p (c_paths c) -> p_lpid p = pid -> src_llgr (p_src p) = true)) ->
+  run_changes x pol emax raddr cid cs e = Ok r ->
+  stale_or_none v0 -> stale_or_none (view_after (fst r) d pid v0).
+Proof.
+  intros x pol emax raddr cid d pid. induction cs as [|c t IH]; intros e r v0 Hk Hem Hcs H Hq.
+  - cbn in H. inversion H; subst. exact Hq.
+  - cbn [run_changes] in H.
+    destruct (process_change x pol emax raddr cid c e) as [r1|] eqn:E1; [|discriminate]. cbn [rbind] in H.
+    destruct (run_changes x pol emax raddr cid t (snd r1)) as [r2|] eqn:E2; [|discriminate]. cbn [rbind] in H.
+    inversion H; subst r. cbn [fst]. rewrite view_after_app.
+    destruct (Hcs c (or_introl eq_refl)) as (Hd & Hdec & Hst). subst d.
+    apply (IH (snd r1) r2 _ Hk Hem (fun c' Hc' => Hcs c' (or_intror Hc')) E2).
+    exact (stale_or_none_step _ _ _ _ _ _ _ _ _ _ Hk Hdec Hem Hst E1 Hq).
+Qed.
+
+Lemma marked_changes_split : forall fam d bc paths marked pid,
+  In pid marked ->
+  exists l1 l2 bc', marked_changes fam d bc paths marked
+    = l1 ++ {| c_family := fam; c_dest := d; c_best_changed := bc'; c_any_changed := true;
+               c_replaced := Some pid; c_paths := paths |} :: l2.
+Proof.
+  intros fam d bc paths marked. revert bc. induction marked as [|m t IH]; intros bc pid Hin; [contradiction|].
+  cbn [marked_changes]. destruct Hin as [Hin|Hin].
+  - subst m. exists [], (marked_changes fam d false paths t), bc. reflexivity.
+  - destruct (IH false pid Hin) as (l1 & l2 & bc' & E). rewrite E.
+    eexists (_ :: l1), l2, bc'. reflexivity.
+Qed.
+
+Lemma marked_changes_all : forall fam d bc paths marked c,
+  In c (marked_changes fam d bc paths marked) -> c_dest c = d /\ c_paths c = paths.
+Proof.
+  intros fam d bc paths marked. revert bc. induction marked as [|m t IH]; intros bc c Hin; [contradiction|].
+  cbn [marked_changes] in Hin. destruct Hin as [Hin|Hin]; [subst c; auto | exact (IH false c Hin)].
+Qed.
+
+Lemma run_changes_app_inv : forall x pol emax raddr cid cs1 cs2 e r,
+  run_changes x pol emax raddr cid (cs1 ++ cs2) e = Ok r ->
+  exists r1 r2, run_changes x pol emax raddr cid cs1 e = Ok r1
+    /\ run_changes x pol emax raddr cid cs2 (snd r1) = Ok r2
+    /\ r = (fst r1 ++ fst r2, snd r2).
+Proof.
+  intros x pol emax raddr cid. induction cs1 as [|c t IH]; intros cs2 e r H.
+  - cbn [app] in H. exists ([], e), r. cbn. destruct r. auto.
+  - cbn [app run_changes] in *.
+    destruct (process_change x pol emax raddr cid c e) as [ra|]; [|discriminate]. cbn [rbind] in *.
+    destruct (run_changes x pol emax raddr cid (t ++ cs2) (snd ra)) as [rb|] eqn:Eb; [|discriminate]. cbn [rbind] in H.
+    inversion H; subst r. destruct (IH cs2 (snd ra) rb Eb) as (r1 & r2 & E1 & E2 & Er). rewrite E1. cbn [rbind].
+    exists (fst ra ++ fst r1, snd r1), r2. cbn [fst snd]. split; [reflexivity|]. split; [exact E2|].
+    subst rb. cbn [fst snd]. rewrite app_assoc. reflexivity.
+Qed.
+
+(* Add-Path neighbour, any destination: after restale_llgr's whole stream, what the
+   neighbour holds for an eligible path of the marked peer carries LLGR_STALE (or it holds
+   nothing), provided the export map covered its view before (which it does along any
+   history, C09_export_map_covers_view_addpath_history). *)
+Theorem C09_llgr_stream_addpath : forall x pol emax raddr cid fam d old addr paths m r p pid v0 v,
+  policy_keeps_decodable pol -> emax <> 1 ->
+  (forall q, In q paths -> decodable (p_attrs q)) ->
+  (forall q, In q paths -> src_raddr (p_src q) = addr -> src_llgr (p_src q) = true) ->
+  (forall q, In q paths -> p_lpid q = pid -> src_raddr (p_src q) = addr) ->
+  In p paths -> p_lpid p = pid ->
+  (has_entry v0 = true -> In pid (ap_ids m d)) ->
+  run_changes x pol emax raddr cid (restale_llgr_changes fam d old true addr paths) (EAddPath m) = Ok r ->
+  view_after (fst r) d pid v0 = Some v -> carries_llgr_stale v.
+Proof.
+  intros x pol emax raddr cid fam d old addr paths m r p pid v0 v Hk Hem Hd Hst Hown Hp Hpid Hcov H Hview.
+  assert (Hmarked : In pid (map p_lpid (filter (fun q => ip_eqb (src_raddr (p_src q)) addr) paths))).
+  { apply in_map_iff. exists p. split; [exact Hpid|]. apply filter_In. split; [exact Hp|].
+    apply ip_eqb_eq. exact (Hown p Hp Hpid). }
+  assert (Hstale : forall q, In q paths -> p_lpid q = pid -> src_llgr (p_src q) = true)
+    by (intros q Hq Hqp; exact (Hst q Hq (Hown q Hq Hqp))).
+  unfold restale_llgr_changes in H. rewrite orb_true_r in H.
+  destruct (map p_lpid (filter (fun q => ip_eqb (src_raddr (p_src q)) addr) paths)) as [|m0 mt] eqn:Em; [contradiction|].
+  match type of H with run_changes _ _ _ _ _ (marked_changes _ _ ?bc _ _) _ = _ =>
+    destruct (marked_changes_split fam d bc paths (m0 :: mt) pid Hmarked) as (l1 & l2 & bc' & Esplit);
+    assert (Hall : forall c, In c (marked_changes fam d bc paths (m0 :: mt)) -> c_dest c = d /\ c_paths c = paths)
+      by (intros c Hc; exact (marked_changes_all _ _ _ _ _ _ Hc)) end.
+  rewrite Esplit in H, Hall.
+  destruct (run_changes_app_inv _ _ _ _ _ _ _ _ _ H) as (r1 & r2 & E1 & E2 & Er). subst r.
+  cbn [fst] in Hview. rewrite view_after_app in Hview.
+  destruct (C09_export_map_covers_view_addpath_history _ _ _ _ _ _ _ _ Hem E1) as (m1 & Es1 & Hc1).
+  cbn [run_changes] in E2.
+  match type of E2 with rbind (process_change _ _ _ _ _ ?c0 _) _ = _ => set (C0 := c0) in * end.
+  destruct (process_change x pol emax raddr cid C0 (snd r1)) as [rc|] eqn:Ec; [|discriminate]. cbn [rbind] in E2.
+  destruct (run_changes x pol emax raddr cid l2 (snd rc)) as [rl|] eqn:El; [|discriminate]. cbn [rbind] in E2.
+  inversion E2; subst r2. cbn [fst] in Hview. rewrite view_after_app in Hview.
+  assert (Hdec : forall q, In q (c_paths C0) -> decodable (p_attrs q)) by (intros q Hq; exact (Hd q Hq)).
+  assert (Hq0 : stale_or_none (view_after (fst rc) d pid (view_after (fst r1) d pid v0))).
+  { destruct (view_after (fst rc) d pid (view_after (fst r1) d pid v0)) as [w|] eqn:Ew; [|exact I]. cbn [stale_or_none].
+    change d with (c_dest C0) in Ew at 1.
+    apply (C09_llgr_view_refreshed x pol emax raddr cid C0 (snd r1) rc pid (view_after (fst r1) d pid v0) w Hk Hdec); [|exact Ec|exact Ew].
+    unfold llgr_change_for. apply N.eqb_neq in Hem. rewrite Hem.
+    split; [reflexivity|]. split; [reflexivity|]. split.
+    - intro Hh. unfold was_sent_path. rewrite Es1. cbn [em_sent_path_ids c_dest C0].
+      exact (Hc1 d pid v0 Hcov Hh).
+    - intros q Hq Hqp. exact (Hstale q Hq Hqp). }
+  assert (Hfin : stale_or_none (view_after (fst rl) d pid (view_after (fst rc) d pid (view_after (fst r1) d pid v0)))).
+  { apply (stale_or_none_run x pol emax raddr cid d pid l2 (snd rc) rl _ Hk Hem); [|exact El|exact Hq0].
+    intros c Hc. destruct (Hall c (in_or_app _ _ _ (or_intror (in_cons _ _ _ Hc)))) as [Hcd Hcp].
+    split; [exact Hcd|]. rewrite Hcp. split; [exact Hd | exact Hstale]. }
+  rewrite Hview in Hfin. exact Hfin.
+Qed.
+
+(* ================================================================ NO_LLGR: the route does not outlive the start of the LLGR period *)
+Lemma llgr_full_stream_plain : forall ps nh attrs,
+  has_no_llgr attrs = false -> llgr_full_stream ps nh attrs = llgr_stream true ps nh attrs.
+Proof.
+  intros ps nh attrs H. unfold llgr_full_stream, drop_no_llgr_changes.
+  cbn [existsb llgr_path p_attrs]. rewrite H, andb_false_r. cbn. apply app_nil_r.
+Qed.
+
+(* without NO_LLGR the full scenario is the scenario of llgr_stale_readvertised *)
+Lemma llgr_scenario_full_plain : forall x pol emax raddr cid ps nh attrs,
+  has_no_llgr attrs = false ->
+  llgr_scenario_full x pol emax raddr cid ps nh attrs = llgr_scenario x pol emax raddr cid ps nh attrs.
+Proof.
+  intros. unfold llgr_scenario_full, llgr_scenario, llgr_scenario_v. rewrite llgr_full_stream_plain by assumption. reflexivity.
+Qed.
+
+Lemma llgr_full_stream_no_llgr : forall ps nh attrs,
+  has_no_llgr attrs = true ->
+  llgr_full_stream ps nh attrs
+  = [ {| c_family := IPV4_UNICAST; c_dest := 1; c_best_changed := true; c_any_changed := true;
+         c_replaced := Some 1; c_paths := [llgr_path ps true nh attrs] |};
+      {| c_family := IPV4_UNICAST; c_dest := 1; c_best_changed := true; c_any_changed := true;
+         c_replaced := None; c_paths := [] |} ].
+Proof.
+  intros ps nh attrs H. unfold llgr_full_stream. rewrite llgr_stream_new. unfold drop_no_llgr_changes.
+  cbn [existsb filter llgr_path p_attrs p_src src_raddr set_llgr ps_raddr].
+  assert (E : ip_eqb (ps_raddr ps) (ps_raddr ps) = true) by (apply ip_eqb_eq; reflexivity).
+  rewrite E, H. reflexivity.
+Qed.
+
+(* a change that reports the destination as gone (no path left) empties the neighbour's view *)
+Lemma gone_change_clears_best_only : forall x pol raddr cid fam d rep e r v0,
+  not_addpath e -> has_entry v0 = em_was_sent e d ->
+  process_change x pol 1 raddr cid {| c_family := fam; c_dest := d; c_best_changed := true; c_any_changed := true;
+                                      c_replaced := rep; c_paths := [] |} e = Ok r ->
+  view_after (fst r) d 0 v0 = None.
+Proof.
+  intros x pol raddr cid fam d rep e r v0 Hna Hv H. unfold process_change in H. cbn in H.
+  destruct (em_was_sent e d) eqn:Ew; inversion H; subst; cbn [fst view_after].
+  - rewrite !N.eqb_refl. reflexivity.
+  - destruct v0; [discriminate | reflexivity].
+Qed.
+
+Lemma view_after_unreach_all : forall d pid ids v0,
+  In pid ids -> view_after (map (fun p => Unreach d p) ids) d pid v0 = None.
+Proof.
+  intros d pid. induction ids as [|i t IH]; intros v0 Hin; [contradiction|].
+  cbn [map view_after]. rewrite N.eqb_refl. cbn [andb]. destruct Hin as [Hin|Hin].
+  - subst i. rewrite N.eqb_refl.
+    assert (Hn : forall l, view_after (map (fun p => Unreach d p) l) d pid None = None).
+    { induction l as [|a l IHl]; [reflexivity|]. cbn [map view_after]. destruct ((d =? d) && (a =? pid)); exact IHl. }
+    apply Hn.
+  - apply IH. exact Hin.
+Qed.
+
+Lemma gone_change_clears_addpath : forall x pol emax raddr cid fam d rep m r pid v0,
+  emax <> 1 -> (has_entry v0 = true -> In pid (ap_ids m d)) ->
+  process_change x pol emax raddr cid {| c_family := fam; c_dest := d; c_best_changed := true; c_any_changed := true;
+                                         c_replaced := rep; c_paths := [] |} (EAddPath m) = Ok r ->
+  view_after (fst r) d pid v0 = None.
+Proof.
+  intros x pol emax raddr cid fam d rep m r pid v0 Hem Hv H. unfold process_change in H.
+  apply N.eqb_neq in Hem. rewrite Hem in H. cbn [c_any_changed negb c_paths filter c_dest c_replaced c_family] in H.
+  rewrite firstn_nil in H. cbn [flat_map map mem negb] in H.
+  cbn [addpath_reaches rbind fst snd] in H. inversion H; subst r. clear H. cbn [fst]. rewrite app_nil_r.
+  destruct v0 as [a|].
+  - apply view_after_unreach_all. apply In_sort_n. apply filter_In. split; [|reflexivity].
+    cbn [em_sent_path_ids]. exact (Hv eq_refl).
+  - assert (Hn : forall l, view_after (map (fun p => Unreach d p) l) d pid None = None).
+    { induction l as [|a l IHl]; [reflexivity|]. cbn [map view_after]. destruct ((d =? d) && (a =? pid)); exact IHl. }
+    apply Hn.
+Qed.
+
+(* A route that carries NO_LLGR is not kept once the LLGR period of its source begins:
+   after restale_llgr's and drop_no_llgr's changes the neighbour holds nothing for it. *)
+Theorem C09_no_llgr_route_withdrawn : forall x pol emax raddr cid ps nh attrs ops1 ops2 e,
+  has_no_llgr attrs = true ->
+  llgr_scenario_full x pol emax raddr cid ps nh attrs = Ok (ops1, ops2, e) ->
+  view_after (ops1 ++ ops2) 1 (if emax =? 1 then 0 else 1) None = None.
+Proof.
+  intros x pol emax raddr cid ps nh attrs ops1 ops2 e Hn Hsc.
+  unfold llgr_scenario_full in Hsc. rewrite (llgr_full_stream_no_llgr ps nh attrs Hn) in Hsc.
+  destruct (process_change x pol emax raddr cid (llgr_change1 ps nh attrs) (if emax =? 1 then ENone else EAddPath []))
+    as [r1|] eqn:E1; [|discriminate].
+  cbn [rbind run_changes] in Hsc.
+  match type of Hsc with rbind (rbind (process_change _ _ _ _ _ ?c2 _) _) _ = _ => set (C2 := c2) in * end.
+  destruct (process_change x pol emax raddr cid C2 (snd r1)) as [r2|] eqn:E2; [|discriminate]. cbn [rbind] in Hsc.
+  match type of Hsc with rbind (rbind (rbind (process_change _ _ _ _ _ ?c3 _) _) _) _ = _ => set (C3 := c3) in * end.
+  destruct (process_change x pol emax raddr cid C3 (snd r2)) as [r3|] eqn:E3; [|discriminate].
+  cbn [rbind fst snd] in Hsc. inversion Hsc; subst ops1 ops2 e. clear Hsc.
+  rewrite app_nil_r, !view_after_app.
+  destruct (emax =? 1) eqn:Em.
+  - apply N.eqb_eq in Em. subst emax.
+    destruct (C09_export_map_tracks_view x pol raddr cid _ ENone r1 I E1) as [Hn1 Ht1].
+    destruct (C09_export_map_tracks_view x pol raddr cid C2 (snd r1) r2 Hn1 E2) as [Hn2 Ht2].
+    apply (gone_change_clears_best_only x pol raddr cid IPV4_UNICAST 1 None (snd r2) r3 _ Hn2); [|exact E3].
+    apply Ht2. apply Ht1. reflexivity.
+  - assert (Hem : emax <> 1) by (apply N.eqb_neq; exact Em).
+    destruct (C09_export_map_covers_view_addpath x pol emax raddr cid _ [] r1 Hem E1) as (m1 & Es1 & Hc1).
+    rewrite Es1 in E2.
+    destruct (C09_export_map_covers_view_addpath x pol emax raddr cid C2 m1 r2 Hem E2) as (m2 & Es2 & Hc2).
+    rewrite Es2 in E3.
+    apply (gone_change_clears_addpath x pol emax raddr cid IPV4_UNICAST 1 None m2 r3 1 _ Hem); [|exact E3].
+    intro Hh. apply (Hc2 1 1 _ (Hc1 1 1 None (fun F => ltac:(discriminate F))) Hh).
+Qed.
+
+(* ================================================================ Add-Path sessions: the export map records nothing the neighbour does not hold *)
+Lemma view_after_reach_only_keeps : forall ops d pid v,
+  (forall op, In op ops -> exists d' p nh out s, op = Reach d' p nh out s) ->
+  has_entry v = true -> has_entry (view_after ops d pid v) = true.
+Proof.
+  induction ops as [|op ops IH]; intros d pid v Hall Hv; [exact Hv|].
+  destruct (Hall op (or_introl eq_refl)) as (d' & p & nh & out & s & E). subst op. cbn [view_after].
+  apply IH; [intros o Ho; apply Hall; right; exact Ho|]. destruct ((d' =? d) && (p =? pid)); [reflexivity | exact Hv].
+Qed.
+
+Lemma view_after_reach_in : forall ops d pid v nh out s,
+  (forall op, In op ops -> exists d' p nh' out' s', op = Reach d' p nh' out' s') ->
+  In (Reach d pid nh out s) ops -> has_entry (view_after ops d pid v) = true.
+Proof.
+  induction ops as [|op ops IH]; intros d pid v nh out s Hall Hin; [contradiction|].
+  destruct Hin as [Hin|Hin].
+  - subst op. cbn [view_after]. rewrite !N.eqb_refl. cbn [andb].
+    apply view_after_reach_only_keeps; [intros o Ho; apply Hall; right; exact Ho | reflexivity].
+  - destruct (Hall op (or_introl eq_refl)) as (d' & p & nh' & out' & s' & E). subst op. cbn [view_after].
+    eapply IH; [intros o Ho; apply Hall; right; exact Ho | exact Hin].
+Qed.
+
+(* the ids addpath_reaches leaves in the map are those it found plus those it advertised *)
+Lemma ap_reaches_ids : forall x d rep top m r,
+  addpath_reaches x d rep (EAddPath m) top = Ok r ->
+  exists m', snd r = EAddPath m'
+    /\ forall p, In p (ap_ids m' d) -> In p (ap_ids m d) \/ exists nh out s, In (Reach d p nh out s) (fst r).
+Proof.
+  intros x d rep. induction top as [|[[[pid0 a0] nh0] s0] t IH]; intros m r H.
+  - cbn in H. inversion H; subst. exists m. split; [reflexivity|]. auto.
+  - cbn [addpath_reaches] in H.
+    destruct (negb (em_contains_path (EAddPath m) d pid0) || match rep with Some r0 => r0 =? pid0 | None => false end).
+    + destruct (export_attrs x a0) as [a'|]; cbn [rbind] in H; [|discriminate].
+      destruct (ap_mark_sent m d pid0) as (m1 & E1 & H1). rewrite E1 in H.
+      destruct (addpath_reaches x d rep (EAddPath m1) t) as [r'|] eqn:Er; cbn [rbind] in H; [|discriminate].
+      inversion H; subst r. cbn [fst snd]. destruct (IH m1 r' Er) as (m' & Es & Hi). exists m'. split; [exact Es|].
+      intros p Hp. destruct (Hi p Hp) as [Hp1 | (nh & out & s & Hr)].
+      * rewrite (H1 d), N.eqb_refl in Hp1. apply In_add_n in Hp1. destruct Hp1 as [Hp1|Hp1]; [|left; exact Hp1].
+        subst p. right. exists nh0, a', s0. left. reflexivity.
+      * right. exists nh, out, s. right. exact Hr.
+    + exact (IH m r H).
+Qed.
+
+Theorem C09_export_map_within_view_addpath : forall x pol emax raddr cid c m r,
+  emax <> 1 ->
+  process_change x pol emax raddr cid c (EAddPath m) = Ok r ->
+  exists m', snd r = EAddPath m'
+    /\ forall d pid v0,
+         (In pid (ap_ids m d) -> has_entry v0 = true) ->
+         In pid (ap_ids m' d) -> has_entry (view_after (fst r) d pid v0) = true.
+Proof.
+  intros x pol emax raddr cid c m r Hem H. unfold process_change in H.
+  apply N.eqb_neq in Hem. rewrite Hem in H.
+  destruct (negb (c_any_changed c)).
+  { inversion H; subst. exists m. split; [reflexivity|]. intros d pid v0 Hv Hi. cbn [fst view_after]. auto. }
+  match type of H with rbind (addpath_reaches _ _ _ (fold_left _ ?gone _) ?top) _ = _ =>
+    set (GONE := gone) in *; set (TOP := top) in * end.
+  destruct (ap_fold_withdrawn GONE m (c_dest c)) as (m1 & E1 & Hg & Hgo). rewrite E1 in H.
+  destruct (addpath_reaches x (c_dest c) (c_replaced c) (EAddPath m1) TOP) as [r'|] eqn:Er; cbn [rbind] in H; [|discriminate].
+  inversion H; subst r. clear H. cbn [fst snd].
+  destruct (ap_reaches _ _ _ _ _ _ Er) as (m' & Es & Hk & Hr & Hop & Ho).
+  destruct (ap_reaches_ids _ _ _ _ _ _ Er) as (m'' & Es' & Hids). rewrite Es in Es'. inversion Es'; subst m''.
+  exists m'. split; [exact Es|]. intros d pid v0 Hv Hi.
+  assert (Hreach_only : forall op, In op (fst r') -> exists d' p nh out s, op = Reach d' p nh out s).
+  { intros op Hin. destruct (Hop op Hin) as (p & nh & out & s & E). eauto 6. }
+  rewrite view_after_app.
+  destruct (N.eq_dec d (c_dest c)) as [Hd|Hd].
+  - subst d. destruct (Hids pid Hi) as [Hin1 | (nh & out & s & Hin)].
+    + apply Hg in Hin1. destruct Hin1 as [Hinm Hng].
+      apply view_after_reach_only_keeps; [exact Hreach_only|].
+      rewrite view_after_untouched; [exact (Hv Hinm)|].
+      intros op Hop'. apply in_map_iff in Hop'. destruct Hop' as (g & Hg' & Hgin). subst op. cbn [touches].
+      destruct (g =? pid) eqn:Eg; [apply N.eqb_eq in Eg; subst g; contradiction | apply andb_false_r].
+    + eapply view_after_reach_in; [exact Hreach_only | exact Hin].
+  - rewrite (Ho d Hd), (Hgo d Hd) in Hi.
+    apply view_after_reach_only_keeps; [exact Hreach_only|].
+    rewrite view_after_untouched; [exact (Hv Hi)|].
+    intros op Hin. apply in_map_iff in Hin. destruct Hin as (g & Hg' & _). subst op. cbn [touches].
+    assert (F : c_dest c =? d = false) by (apply N.eqb_neq; congruence). rewrite F. reflexivity.
+Qed.
+
+(* both directions along any history that starts with an empty Add-Path map: the map is exact *)
+Theorem C09_export_map_exact_addpath_history : forall x pol emax raddr cid cs r d pid,
+  emax <> 1 ->
+  run_changes x pol emax raddr cid cs (EAddPath []) = Ok r ->
+  (has_entry (view_after (fst r) d pid None) = true <-> was_sent_path (snd r) d pid).
+Proof.
+  intros x pol emax raddr cid cs r d pid Hem H. split.
+  - intro Hh. destruct (C09_export_map_covers_view_addpath_history _ _ _ _ _ _ _ _ Hem H) as (m' & Es & Hc).
+    unfold was_sent_path. rewrite Es. cbn [em_sent_path_ids]. apply (Hc d pid None); [discriminate | exact Hh].
+  - revert r H. 
+    assert (G : forall cs m r, run_changes x pol emax raddr cid cs (EAddPath m) = Ok r ->
+              exists m', snd r = EAddPath m' /\ forall d pid v0, (In pid (ap_ids m d) -> has_entry v0 = true) ->
+                In pid (ap_ids m' d) -> has_entry (view_after (fst r) d pid v0) = true).
+    { clear cs. induction cs as [|c t IH]; intros m r H.
+      - cbn in H. inversion H; subst. exists m. split; [reflexivity|]. intros d0 p0 v0 Hv Hi. cbn. auto.
+      - cbn [run_changes] in H.
+        destruct (process_change x pol emax raddr cid c (EAddPath m)) as [r1|] eqn:E1; [|discriminate]. cbn [rbind] in H.
+        destruct (C09_export_map_within_view_addpath _ _ _ _ _ _ _ _ Hem E1) as (m1 & Es1 & H1). rewrite Es1 in H.
+        destruct (run_changes x pol emax raddr cid t (EAddPath m1)) as [r2|] eqn:E2; [|discriminate]. cbn [rbind] in H.
+        inversion H; subst r. cbn [fst snd]. destruct (IH m1 r2 E2) as (m' & Es & H2). exists m'. split; [exact Es|].
+        intros d0 p0 v0 Hv Hi. rewrite view_after_app. apply (H2 d0 p0 _ (H1 d0 p0 v0 Hv) Hi). }
+    intros r H Hs. destruct (G cs [] r H) as (m' & Es & Hw). unfold was_sent_path in Hs. rewrite Es in Hs. cbn [em_sent_path_ids] in Hs.
+    apply (Hw d pid None); [intro F; contradiction | exact Hs].
+Qed.
+
+(* ================================================================ the caller (handle_prefix_update) and PendingTx *)
+Lemma run_updates_lift : forall x pol emax raddr cid cs e,
+  run_updates true x (lift_policy pol) emax raddr cid cs e = run_changes x pol emax raddr cid cs e.
+Proof.
+  intros x pol emax raddr cid. induction cs as [|c t IH]; intro e; [reflexivity|].
+  cbn [run_updates run_changes]. rewrite C09_process_change_r_lift.
+  destruct (process_change x pol emax raddr cid c e) as [r1|]; [|reflexivity]. cbn [rbind]. rewrite IH. reflexivity.
+Qed.
+
+Lemma run_updates_no_family : forall x polr emax raddr cid cs e,
+  run_updates false x polr emax raddr cid cs e = Ok ([], e).
+Proof.
+  intros x polr emax raddr cid. induction cs as [|c t IH]; intro e; [reflexivity|].
+  cbn [run_updates rbind snd fst]. rewrite IH. reflexivity.
+Qed.
+
+(* what PendingTx hands over as an announcement was handed to it by a Reach *)
+Lemma pending_reach_is_advertised : forall ap ops d key st nh a,
+  pending_after ap ops d key st = PReach nh a ->
+  st = PReach nh a \/ exists pid s, In (Reach d pid nh a s) ops.
+Proof.
+  intros ap. induction ops as [|op ops IH]; intros d key st nh a H; [left; exact H|].
+  destruct op as [d' p' | d' p' nh' a' s']; cbn [pending_after] in H.
+  - destruct (IH _ _ _ _ _ H) as [E | (pid & s & Hin)]; [|right; exists pid, s; right; exact Hin].
+    destruct ((d' =? d) && ((if ap then p' else 0) =? key)); [discriminate | left; exact E].
+  - destruct (IH _ _ _ _ _ H) as [E | (pid & s & Hin)]; [|right; exists pid, s; right; exact Hin].
+    destruct ((d' =? d) && ((if ap then p' else 0) =? key)) eqn:Ek; [|left; exact E].
+    inversion E; subst. apply andb_true_iff in Ek. destruct Ek as [Ed _]. apply N.eqb_eq in Ed. subst d'.
+    right. exists p', s'. left. reflexivity.
+Qed.
+
+(* every announcement a neighbour's task queues for the wire, along any run of
+   handle_prefix_update, is an advertisement in the sense of the theorems above *)
+Theorem C09_queued_announcements_are_advertised : forall x pol emax raddr cid cs e r ap d key nh a,
+  run_updates true x (lift_policy pol) emax raddr cid cs e = Ok r ->
+  pending_after ap (fst r) d key PNothing = PReach nh a ->
+  exists c e' pid s, In c cs /\ advertised x pol emax raddr cid c e' d pid nh a s.
+Proof.
+  intros x pol emax raddr cid cs e r ap d key nh a H Hp. rewrite run_updates_lift in H.
+  destruct (pending_reach_is_advertised _ _ _ _ _ _ _ Hp) as [E | (pid & s & Hin)]; [discriminate|].
+  destruct (run_changes_reach _ _ _ _ _ _ _ _ _ _ _ _ _ H Hin) as (c & e' & Hc & Ha).
+  exists c, e', pid, s. auto.
+Qed.
+
+(* the changes of a refresh walk are the walk's changes with a replaced id put in *)
+Lemma refresh_changes_In : forall emax walk c,
+  In c (flat_map (refresh_changes emax) walk) ->
+  exists c0 r, In c0 walk /\ c = with_replaced c0 r.
+Proof.
+  intros emax walk c H. apply in_flat_map in H. destruct H as (c0 & Hc0 & Hin). unfold refresh_changes in Hin.
+  destruct (1 <? emax).
+  - apply in_map_iff in Hin. destruct Hin as (p & E & _). exists c0, (Some (p_lpid p)). auto.
+  - destruct Hin as [E|[]]. exists c0, None. auto.
+Qed.
+
+(* every announcement a route refresh queues is an advertisement of a destination of the walk,
+   with the walk's path list *)
+Theorem C09_refresh_announcements_are_advertised : forall x pol emax raddr cid walk e r ap d key nh a,
+  run_updates true x (lift_policy pol) emax raddr cid (flat_map (refresh_changes emax) walk) e = Ok r ->
+  pending_after ap (fst r) d key PNothing = PReach nh a ->
+  exists c0 rep e' pid s, In c0 walk /\ advertised x pol emax raddr cid (with_replaced c0 rep) e' d pid nh a s.
+Proof.
+  intros x pol emax raddr cid walk e r ap d key nh a H Hp.
+  destruct (C09_queued_announcements_are_advertised _ _ _ _ _ _ _ _ _ _ _ _ _ H Hp) as (c & e' & pid & s & Hc & Ha).
+  destruct (refresh_changes_In _ _ _ Hc) as (c0 & rep & Hc0 & E). subst c.
+  exists c0, rep, e', pid, s. auto.
+Qed.
